@@ -277,6 +277,9 @@ def int_bitop(I, op, a, b):
                 kx = known_bits(I, x)
                 if kx is not None and kx <= lz:
                     return mk_int(zterm(x) + zterm(y))
+                if kx is not None and kx > lz and kx - lz <= 2 and I.path.must(zterm(x) < _pow2(lz)):
+                    # (C13) known_bits only tries a few widths (.., 8, 10, 13, ..): ask for the width that matters here
+                    return mk_int(zterm(x) + zterm(y))
         if isinstance(a, int) and a == 0:
             return b
         if isinstance(b, int) and b == 0:
